@@ -218,6 +218,35 @@ def _elem_index_of(m, term, depth=0):
     return None
 
 
+def _def_term(m, d):
+    bb, idx, kind, payload = d
+    if kind == "call":
+        cal = m.callee(payload)
+        return ("call", cal["path"] if cal else "?", [m.resolve_operand(a) for a in payload["args"]], cal, bb)
+    return m.resolve_rvalue(payload)
+
+
+def _alternatives(m, term, depth=0):
+    """The values a term may stand for when it is a local assigned in several branches (each definition resolved)."""
+    l = None
+    if isinstance(term, tuple) and term and term[0] == "local" and isinstance(term[2], int) and term[2] > m.arg_count:
+        l = term[2]
+    elif isinstance(term, tuple) and term and term[0] == "temp":
+        l = term[1]
+    if l is not None and depth < 3:
+        ds = m.defs().get(l, [])
+        if len(ds) > 1:
+            out = []
+            for d in ds:
+                out += _alternatives(m, _def_term(m, d), depth + 1)
+            return out
+        if len(ds) == 1:
+            inner = _def_term(m, ds[0])
+            if isinstance(inner, tuple) and inner and inner[0] in ("local", "temp"):
+                return _alternatives(m, inner, depth + 1)
+    return [term]
+
+
 def rule_G3(prog):
     r = RuleResult("G3", "conservation on removal: every `ops.remove(i)` on a list of DiffOp either removes an op shown "
                          "empty (`ops[i].is_empty()` on the dominating branch) or is preceded, in the same arm, by a "
@@ -259,12 +288,17 @@ def rule_G3(prog):
                     if any(h in m.reach_from([t2["target"]]) and m.dominates(h, bb) and h != bb and not m.dominates(h, b2)
                            for h, _ in m.loops()):
                         continue
-                    amt = strip(m.expand(m.resolve_operand(t2["args"][1]), depth=3))
-                    src = None
-                    if isinstance(amt, tuple) and amt and amt[0] == "call" and amt[1].endswith("ExactSizeIterator::len"):
-                        rng = strip(amt[2][0])
-                        if isinstance(rng, tuple) and rng and rng[0] == "call" and rng[1] in ("types::DiffOp::new_range", "types::DiffOp::old_range"):
-                            src = _elem_index_of(m, rng[2][0])
+                    # the amount, or every alternative of it when it is chosen by an `if` (`let n = if .. {a} else {b}`)
+                    srcs = []
+                    for amt in _alternatives(m, m.resolve_operand(t2["args"][1])):
+                        amt = strip(m.expand(amt, depth=3))
+                        one = None
+                        if isinstance(amt, tuple) and amt and amt[0] == "call" and amt[1].endswith("ExactSizeIterator::len"):
+                            rng = strip(amt[2][0])
+                            if isinstance(rng, tuple) and rng and rng[0] == "call" and rng[1] in ("types::DiffOp::new_range", "types::DiffOp::old_range"):
+                                one = _elem_index_of(m, rng[2][0])
+                        srcs.append(one)
+                    src = srcs[0] if srcs and all(x is not None and x == srcs[0] for x in srcs) else None
                     target = _elem_index_of(m, m.resolve_operand(t2["args"][0]))
                     if src is not None and src == idx and target != idx:
                         verdict = "merged into ops[%s] by %s(len of ops[%s])" % (_fmt_idx(target or {}), c2["path"].rsplit("::", 1)[-1], _fmt_idx(src))
@@ -371,6 +405,62 @@ def rule_G5(prog):
 
 
 # ------------------------------------------------------------------ G6: shrinking is followed by an emptiness check
+def _empty_check_blocks(m, idx):
+    """Blocks that test `ops[idx].is_empty()` and remove ops[idx] on the true edge."""
+    good = set()
+    for b2, t2 in m.calls():
+        c2 = m.callee(t2)
+        if c2 and c2["path"] == "types::DiffOp::is_empty" and _elem_index_of(m, m.resolve_operand(t2["args"][0])) == idx:
+            sw = m.blocks[t2["target"]]["term"] if t2["target"] is not None else None
+            true_t = None
+            if sw and sw["k"] == "switch" and sw["values"] == ["0"]:
+                true_t = sw["otherwise"]
+            elif sw and sw["k"] == "goto":
+                # `let empty = ops[i].is_empty(); if empty { .. }`: the flag is tested by a later switch
+                dest = t2["dest"]["l"] if not t2["dest"]["proj"] else None
+                for b4, blk in enumerate(m.blocks):
+                    tt = blk["term"]
+                    if tt["k"] == "switch" and tt["values"] == ["0"] and m.dominates(b2, b4):
+                        d = tt.get("discr") or {}
+                        if d.get("k") in ("copy", "move") and not d["p"]["proj"]:
+                            src = m.resolve_operand(d)
+                            if d["p"]["l"] == dest or (isinstance(src, tuple) and src[0] == "local" and src[2] == dest) or \
+                                    (isinstance(src, tuple) and src[0] == "call" and len(src) > 4 and src[4] == b2):
+                                true_t = tt["otherwise"]
+                                break
+            if true_t is not None:
+                removes = [b3 for b3, t3 in m.calls() if (m.callee(t3) or {}).get("path") == "std::vec::Vec::<T, A>::remove" and
+                           (b3 == true_t or m.dominates(true_t, b3)) and _lin_idx(m, m.resolve_operand(t3["args"][1])) == idx]
+                if removes:
+                    good.add(b2)
+    return good
+
+
+_RIE_MEMO = {}
+
+
+def _remove_if_empty_helpers(prog):
+    """Local functions `f(ops: &mut Vec<DiffOp>, i: usize)` that test ops[i].is_empty() and remove ops[i] when it holds."""
+    key = id(prog)
+    if key in _RIE_MEMO:
+        return _RIE_MEMO[key]
+    out = set()
+    for g in prog.user_fns():
+        m = g.mir
+        if not m or m.arg_count != 2 or m.locals[2]["ty_str"] != "usize":
+            continue
+        nm = m.local_name(2)
+        if not nm:
+            continue
+        from .facts import term_str
+        idx = {term_str(("local", nm, 2)): 1}
+        if _empty_check_blocks(m, idx):
+            out.add(g.path)
+    _RIE_MEMO.clear()
+    _RIE_MEMO[key] = out
+    return out
+
+
 def rule_G6(prog):
     r = RuleResult("G6", "compaction never leaves an empty op behind: after `ops[j].shrink_left/shrink_right(..)` every path to the "
                          "next loop back-edge or return passes an `ops[j].is_empty()` test whose true branch removes ops[j]")
@@ -385,19 +475,13 @@ def rule_G6(prog):
                 continue
             r.instances += 1
             idx = _elem_index_of(m, m.resolve_operand(t["args"][0]))
-            # blocks that test is_empty on the same element and remove it on the true edge
-            good = set()
+            # blocks that test is_empty on the same element and remove it on the true edge (directly or in a helper)
+            good = _empty_check_blocks(m, idx)
             for b2, t2 in m.calls():
-                c2 = m.callee(t2)
-                if c2 and c2["path"] == "types::DiffOp::is_empty" and _elem_index_of(m, m.resolve_operand(t2["args"][0])) == idx:
-                    sw = m.blocks[t2["target"]]["term"] if t2["target"] is not None else None
-                    if sw and sw["k"] == "switch" and sw["values"] == ["0"]:
-                        true_t = sw["otherwise"]
-                        reach = m.reach_from([true_t], stop=())
-                        removes = [b3 for b3, t3 in m.calls() if (m.callee(t3) or {}).get("path") == "std::vec::Vec::<T, A>::remove" and
-                                   (b3 == true_t or m.dominates(true_t, b3)) and _lin_idx(m, m.resolve_operand(t3["args"][1])) == idx]
-                        if removes:
-                            good.add(b2)
+                g = prog.fn((m.callee(t2) or {}).get("path", ""))
+                if g is not None and g.path in _remove_if_empty_helpers(prog) and len(t2["args"]) == 2 and \
+                        _lin_idx(m, m.resolve_operand(t2["args"][1])) == idx:
+                    good.add(b2)
             # every path from the shrink to a back edge / return passes a good block
             seen = set()
             stack = [t["target"]] if t["target"] is not None else []
